@@ -515,6 +515,12 @@ def gen_b(rng, sched_rng, tier: str) -> Dict[str, Any]:
                     q = rng.choice(Q.INVALID_TEXTS)
                 prog.append({"op": "compile", "id": cid, "env": storm_env, "q": q})
                 prog.append({"op": "apply", "c": cid, "doc": rng.choice(docs), "entry": rng.choice(H.ENTRIES)})
+                if rng.random() < 0.4:
+                    # ... and the same text once more right away (what an application calling
+                    # env.find(text, data) in a loop does): "the last thing compiled" is this thread's
+                    own_ids += 1
+                    prog.append({"op": "compile", "id": f"t{own_ids}", "env": storm_env, "q": q})
+                    prog.append({"op": "apply", "c": f"t{own_ids}", "doc": rng.choice(docs), "entry": rng.choice(H.ENTRIES)})
             programs[name] = prog
             continue
         if nondet_storm:
